@@ -63,6 +63,23 @@ func c18SetCorpus(idx int) c18SetScn {
 
 // c18NearNames: k distinct relative paths made of the same words with different separators / case.
 func c18NearNames(rng *Rng, k int) []string {
+	if rng.Chance(25) {
+		// the same base name in different directories / with different extensions (keys made of the base name,
+		// of the name without its extension, of the directory)
+		base := PickOne(rng, []string{"hook", "run", "sync"})
+		dirs := []string{"", "a/", "b/", "a/b/", "001-a/", "A/"}
+		exts := []string{".sh", ".sh", ".py", ""}
+		seen := map[string]bool{}
+		var out []string
+		for tries := 0; len(out) < k && tries < 200; tries++ {
+			name := PickOne(rng, dirs) + base + PickOne(rng, exts)
+			if !seen[name] {
+				seen[name] = true
+				out = append(out, name)
+			}
+		}
+		return out
+	}
 	words := PickOne(rng, [][]string{{"fast", "a"}, {"slow", "b"}, {"sub", "hook"}, {"001", "init", "run"}, {"x", "y", "z"}, {"global", "hooks", "sync"}, {"a", "b"}})
 	seps := []string{"/", "-", "_", ".", " ", "--", "__", "-_", "/", "-", "_"}
 	seen := map[string]bool{}
